@@ -345,6 +345,18 @@ impl Monitor for C20 {
                         }
                     }
                 }
+                // what follows an id in the text formats (obo comment, modifier block, column separators, line ends,
+                // list separators): the whole tail must be a number, nothing is cut off
+                for num in ["7", "0000118", "4294967295", "4294967296", ""] {
+                    for suffix in [
+                        " ! Phenotypic abnormality", " !", " !7", "!", " ! ", " !x", "\t!", "  ! x", " {source=\"x\"}", " {", "\tx", "\t", "\r", "\r\n", "\n",
+                        ";", ",", ";HP:0000001", ", HP:0000001", " HP:0000001", "|", " #", "#x", " // x", ".", ".0", "/1", "\\", "\"", "'",
+                    ] {
+                        v.push(format!("HP:{num}{suffix}"));
+                        v.push(format!("HP:{suffix}{num}"));
+                        out.bucket("text_format_suffix_after_number");
+                    }
+                }
                 for s in &v {
                     check_str(s, &mut out);
                 }
